@@ -1012,7 +1012,7 @@ META = {
              'names resolve to a single definition; every demultiplex return is a list; the resolved layouts equal a pinned reference table; bc / BC / bi / '
              'RX / RQ are recorded from the raw cut, the corrected barcode, the index and the UMI. Does NOT decide data-dependent trimming beyond '
              'seq/qual alignment of the trim, nor that the pinned protocol constants are biochemically right.'),
-    'technique': 'static analysis: constant propagation / partial evaluation of constructor chains into per-strategy layout tables, interval coverage and disjointness checks, slice-twin comparison, reference-table comparison; provenance of scanned prunes through helper parameters (C02-R12)',
+    'technique': 'static analysis: constant propagation / partial evaluation of constructor chains into per-strategy layout tables, interval coverage and disjointness checks, slice-twin comparison, reference-table comparison; provenance of scanned prunes through helper parameters (C02-R12); def-use of per-read values into tables kept on the strategy instance (C02-R13)',
     'design_ref': 'DESIGN.md section 5, C02 and Appendix A',
     'note': 'The reference layout table sa/rules/C02_layouts.json was generated from the resolved constants and confirmed line by line against DESIGN.md Appendix A.',
 }
